@@ -286,6 +286,18 @@ def judge_call(ctx, mods, t, fn, old, target, Routes, MFE, what):
               0 <= e.key <= 0xffffffff and 0 <= e.mask <= 0xffffffff and
               e.key & ~e.mask == 0, "malformed-entry", "%s: %r" % (what, e))
     matched = equivalent(ctx, t, old, new, Routes, what)
+    if len(t["pos"]) <= 8 and t["mode"] == "orth":
+        # cross-examination of this oracle, never a verdict: the library's
+        # own equivalence helper has to agree on tables it is defined for
+        ru = importlib.import_module("rig.routing_table.utils")
+        try:
+            agrees = ru.table_is_subset_of(list(old), list(new))
+        except Exception as e:          # helper's own trouble, not C04's
+            agrees = "raised %s" % type(e).__name__
+        ctx.hit("library_helper_consulted")
+        if agrees is not True:
+            ctx.hit("library_helper_disagrees")
+            ctx.note({"helper_disagreement": "%s: %r" % (what, agrees)})
     if len(new) < len(old):
         ctx.hit("shorter_result")
         return matched >= 2
